@@ -12,6 +12,14 @@ def hx (s : String) : Option Bytes := if s == "-" then some [] else hexToBytes s
 inductive DFilter where
   | all | denyIp (ip : UInt32) | denyPut
 
+structure NodeSlot where
+  actor : Actor
+  nodeAddr : Addr
+  nreqs : List (String × Nat) := []
+  apiQ : List ApiMsg := []
+  immCallers : List Nat := []
+  immResolved : List Nat := []
+
 structure DState where
   closest : ClosestNodes := { target := ⟨[]⟩ }
   rt : RoutingTable := { id := ⟨[]⟩ }
@@ -37,6 +45,9 @@ structure DState where
   immCallers : List Nat := []
   immResolved : List Nat := []
   outSeen : Nat := 0
+  -- mnet stream: the other nodes of the case (the current one is loaded into the fields above)
+  multi : Bool := false
+  slots : List (Nat × NodeSlot) := []
 
 def DState.verify (st : DState) : Verify := fun k msg sig => st.sigs.contains (k, msg, sig)
 def DState.allow (st : DState) : Allow := fun req src =>
@@ -398,27 +409,38 @@ def nodeStep (st : DState) (a : Actor) (dgram : Option (Message × Addr)) : DSta
     | [] => (none, [])
   ({ st with apiQ := rest }, a.step (nodeEnv st) dgram msg)
 
+
+/-- create the model node described by `mode= boot= ip= pub= seed= caps=` -/
+def mkNodeActor (rest : List String) (t0 : Nat) : Option (Actor × Addr) :=
+  match (kvOf rest "seed").bind String.toNat? with
+  | some seed =>
+    let boot : List Addr := match kvOf rest "boot" with
+      | some "-" | none => []
+      | some l => (l.splitOn ",").filterMap parseAddr
+    let pubIp : Option UInt32 := match kvOf rest "pub" with
+      | some "-" | none => none
+      | some ip => ip.toNat?.map UInt32.ofNat
+    let caps : Nat × Nat × Nat × Nat := match kvOf rest "caps" with
+      | some c => (match (c.splitOn ",").filterMap String.toNat? with
+        | [a, b, c, d] => (a, b, c, d)
+        | _ => (0, 0, 0, 0))
+      | none => (0, 0, 0, 0)
+    let cfg : NodeConfig := { serverMode := kvOf rest "mode" == some "s", bootstrap := boot, publicIp := pubIp, caps }
+    let ip : UInt32 := match (kvOf rest "ip").bind String.toNat? with
+      | some ip => UInt32.ofNat ip
+      | none => pubIp.getD 167772161
+    some (Actor.create cfg (UInt64.ofNat (seed ||| 1)) t0, ⟨ip, 6881⟩)
+  | none => none
+
 def step3 (st : DState) (toks : List String) : DState × String :=
   match toks with
   | "case" :: n :: "node" :: rest =>
-    (match (kvOf rest "seed").bind String.toNat?, (kvOf rest "t0").bind String.toNat? with
-     | some seed, some t0 =>
-       let boot : List Addr := match kvOf rest "boot" with
-         | some "-" | none => []
-         | some l => (l.splitOn ",").filterMap parseAddr
-       let pubIp : Option UInt32 := match kvOf rest "pub" with
-         | some "-" | none => none
-         | some ip => ip.toNat?.map UInt32.ofNat
-       let caps : Nat × Nat × Nat × Nat := match kvOf rest "caps" with
-         | some c => (match (c.splitOn ",").filterMap String.toNat? with
-           | [a, b, c, d] => (a, b, c, d)
-           | _ => (0, 0, 0, 0))
-         | none => (0, 0, 0, 0)
-       let cfg : NodeConfig := { serverMode := kvOf rest "mode" == some "s", bootstrap := boot, publicIp := pubIp, caps }
-       let a := Actor.create cfg (UInt64.ofNat (seed ||| 1)) t0
-       let ip : UInt32 := pubIp.getD 167772161
-       ({ now := t0, actor := some a, nodeAddr := ⟨ip, 6881⟩ }, "case " ++ n)
-     | _, _ => (st, "bad-op"))
+    (match (kvOf rest "t0").bind String.toNat? with
+     | some t0 =>
+       (match mkNodeActor rest t0 with
+        | some (a, addr) => ({ now := t0, actor := some a, nodeAddr := addr }, "case " ++ n)
+        | none => (st, "bad-op"))
+     | none => (st, "bad-op"))
   | ["init"] =>
     (match st.actor with
      | some a =>
@@ -497,6 +519,47 @@ def step3 (st : DState) (toks : List String) : DState × String :=
     else (st, "bad-op")
   | _ => (st, "bad-op")
 
+
+def saveSlot (st : DState) (i : Nat) : DState :=
+  match st.actor with
+  | some a =>
+    let slot : NodeSlot := { actor := a, nodeAddr := st.nodeAddr, nreqs := st.nreqs, apiQ := st.apiQ,
+                             immCallers := st.immCallers, immResolved := st.immResolved }
+    { st with slots := (i, slot) :: st.slots.filter (·.1 != i), actor := none }
+  | none => st
+
+def loadSlot (st : DState) (i : Nat) : Option DState :=
+  (st.slots.find? (·.1 == i)).map fun p =>
+    { st with actor := some p.2.actor, nodeAddr := p.2.nodeAddr, nreqs := p.2.nreqs, apiQ := p.2.apiQ,
+              immCallers := p.2.immCallers, immResolved := p.2.immResolved }
+
+/-- mnet stream: several model nodes, ops prefixed with the node index -/
+def step4 (st : DState) (toks : List String) : DState × String :=
+  match toks with
+  | "node" :: i :: rest =>
+    (match i.toNat? with
+     | some i =>
+       if i != st.slots.length then (st, "bad-op") else
+       (match mkNodeActor rest st.now with
+        | some (a, addr) =>
+          let st1 : DState := { st with actor := some a, nodeAddr := addr, nreqs := [], apiQ := [], immCallers := [], immResolved := [] }
+          let (st2, out) := step3 st1 ["init"]
+          (saveSlot st2 i, out)
+        | none => (st, "bad-op"))
+     | none => (st, "bad-op"))
+  | ni :: rest =>
+    if ni.startsWith "n" then
+      match (ni.drop 1).toString.toNat? with
+      | some i =>
+        (match loadSlot st i with
+         | some st1 =>
+           let (st2, out) := step3 st1 rest
+           (saveSlot st2 i, out)
+         | none => (st, "bad-op"))
+      | none => (st, "bad-op")
+    else (st, "bad-op")
+  | _ => (st, "bad-op")
+
 def step (st : DState) (line : String) : DState × String :=
   match line.trimAscii.toString.splitOn " " with
   | ["case", n, "closest", t] => (match hx t with
@@ -520,6 +583,9 @@ def step (st : DState) (line : String) : DState × String :=
         ({ tokens := some t, rng := rng, t0 := t0 }, "case " ++ n)
       | _, _ => (st, "bad-op"))
   | "case" :: n :: "node" :: rest => step3 {} ("case" :: n :: "node" :: rest)
+  | "case" :: n :: "mnet" :: rest => (match (kvOf rest "t0").bind String.toNat? with
+      | some t0 => ({ now := t0, multi := true }, "case " ++ n)
+      | none => (st, "bad-op"))
   | "case" :: n :: "socket" :: rest => step2 {} ("case" :: n :: "socket" :: rest)
   | "case" :: n :: "putq" :: rest => step2 {} ("case" :: n :: "putq" :: rest)
   | "case" :: n :: _ => ({}, "case " ++ n)
@@ -685,7 +751,7 @@ def step (st : DState) (line : String) : DState × String :=
         let (rnd, _) := rngFill 21 (UInt64.ofNat seed)
         bytesToHex (Id.fromIpv4 rnd (UInt32.ofNat ip)).bytes
       | _, _ => "bad-op")
-  | toks => if st.actor.isSome then step3 st toks else step2 st toks
+  | toks => if st.multi then step4 st toks else if st.actor.isSome then step3 st toks else step2 st toks
 
 partial def loop (h : IO.FS.Stream) (out : IO.FS.Stream) (st : DState) : IO Unit := do
   let line ← h.getLine
